@@ -7,8 +7,9 @@ glue/core/component_link.py).  Arrays are represented point-wise: their value at
         correlation matrix is sound (world k does not depend on pixel j when matrix[k, j] is False; instantiated at the two points
         the proof needs).  Shape of the result = shape of the first input.  Empty input: zeros of that shape.
   world2pixel_single_axis(wcs, *world, pixel_axis=k)    same for the inverse; which inputs may be dropped comes from
-        _connected_axes (assumed: the inverse for pixel k does not depend on a world axis outside the returned set; exhaustively
-        evaluated for all boolean matrices up to 3x3 (4x4 thorough) in the bounded layer)
+        _connected_axes (assumed of the coordinate object: the inverse for pixel k does not depend on a world axis outside the returned
+        set; _connected_axes itself is under the contract ConnectedAxes below - least closed set of axes - and is also evaluated for all
+        boolean matrices up to 3x3 (4x4 thorough) in the bounded layer)
   CoordinateComponentLink.using(*args)                  for ndim = 1..3, every index and every subset `from_needed`: the helper is called
         with ndim arguments in reversed (x, y, z) order, argument i being the supplied value when i is in from_needed and the default
         world coordinate default[ndim-1-i] broadcast to the shape of the first argument otherwise, and with axis ndim-1-index
@@ -20,6 +21,7 @@ import itertools
 import z3
 
 from pyvc.verify import FnContract, Inputs, St
+from pyvc.interp import LoopSpec
 from pyvc.values import PObj, PList, PSlice, Builtin, PType, Unsupported, is_z3
 from pyvc import spec as S
 
@@ -450,3 +452,190 @@ def _getitem15(self, obj, idx):
 _I15.getitem = _getitem15
 
 CONTRACTS.append(CalculateWorld())
+
+
+# =================================================================================================
+# _connected_axes / dependent_axes: the fixpoint that decides which axes may be dropped (the broadcasting shortcuts rest on it).
+# The boolean matrix entries are symbolic; the matrix size is the configuration (every size up to 3 x 3, 4 x 4 thorough).  The while
+# loop is under an inductive contract (no unrolling): the current sets contain the seeds and are contained in EVERY closed pair of sets
+# that contains the seeds (the pair (Pc, Wc) is arbitrary: free constants of the VC); on return the pair is itself closed, hence the
+# least closed pair = the axes connected to the seeds.  Variant: number of axes not yet marked.
+# numpy facts used (trusted): zeros(n, bool) is all False; a[list] = True sets those entries; m[:, p].any(axis=1)[w] = exists j. p[j] and
+# m[w, j]; m[w, :].any(axis=0)[j] = exists i. w[i] and m[i, j]; | and == are element-wise; np.all is the conjunction; np.nonzero(v)[0] are
+# the indices of the True entries in increasing order; m[::-1, ::-1][i, j] = m[nw-1-i, np-1-j].
+
+def _B(x):
+    return x if is_z3(x) else z3.BoolVal(bool(x))
+
+
+def bvec(items):
+    v = PObj('boolvec', fields={'items': [_B(x) for x in items]})
+
+    def items_of(o):
+        if isinstance(o, PObj) and o.cls == 'boolvec':
+            return o.fields['items']
+        raise Unsupported("boolean vector combined with %r" % (o,))
+
+    def setitem(I, self_, idx, val):
+        idx = idx.items if isinstance(idx, PList) else list(idx)
+        for i in idx:
+            if not isinstance(i, int) or isinstance(i, bool):
+                raise Unsupported("boolean vector indexed by %r" % (i,))
+            if not -len(self_.fields['items']) <= i < len(self_.fields['items']):
+                I.raise_exc('IndexError', "index out of bounds")
+            self_.fields['items'][i] = _B(val)
+    v.methods['__or__'] = lambda I, a, b: bvec([z3.Or(x, y) for x, y in zip(a.fields['items'], items_of(b))])
+    v.methods['__eq__'] = lambda I, a, b: bvec([x == y for x, y in zip(a.fields['items'], items_of(b))])
+    v.methods['__setitem__'] = setitem
+    return v
+
+
+def bmat(rows):
+    m = PObj('boolmat', fields={'rows': [[_B(x) for x in r] for r in rows], 'shape': (len(rows), len(rows[0]) if rows else 0)})
+
+    def whole(s):
+        return isinstance(s, PSlice) and s.start is None and s.stop is None and s.step is None
+
+    def rev(s):
+        return isinstance(s, PSlice) and s.start is None and s.stop is None and s.step == -1
+
+    def getitem(I, self_, idx):
+        rows_ = self_.fields['rows']
+        if isinstance(idx, tuple) and len(idx) == 2:
+            a, b = idx
+            if whole(a) and isinstance(b, PObj) and b.cls == 'boolvec':        # columns where b holds
+                sel = PObj('selected-columns')
+                sel.methods['any'] = lambda I2, s_, axis=None: (bvec([z3.Or(*[z3.And(p, x) for p, x in zip(b.fields['items'], r)]) for r in rows_])
+                                                               if axis == 1 else _unsupported("any(axis=%r) of selected columns" % (axis,)))
+                return sel
+            if whole(b) and isinstance(a, PObj) and a.cls == 'boolvec':        # rows where a holds
+                sel = PObj('selected-rows')
+                ncol = self_.fields['shape'][1]
+                sel.methods['any'] = lambda I2, s_, axis=None: (bvec([z3.Or(*[z3.And(w, r[j]) for w, r in zip(a.fields['items'], rows_)]) for j in range(ncol)])
+                                                               if axis == 0 else _unsupported("any(axis=%r) of selected rows" % (axis,)))
+                return sel
+            if rev(a) and rev(b):
+                return bmat([list(reversed(r)) for r in reversed(rows_)])
+        raise Unsupported("boolean matrix indexed by %r" % (idx,))
+    m.methods['__getitem__'] = getitem
+    return m
+
+
+def closed(rows, P, W):
+    """(P, W) is closed under the correlation matrix: an axis related to a marked axis is marked"""
+    cl = []
+    for i, r in enumerate(rows):
+        for j, x in enumerate(r):
+            cl.append(z3.Implies(x, P[j] == W[i]))
+    return z3.And(*cl) if cl else z3.BoolVal(True)
+
+
+class ConnectedAxes(FnContract):
+    property_ids = ('C15',)
+    target = CH + ":_connected_axes"
+    title = ("the returned pixel and world axes are exactly the axes connected - directly or through other axes - to the given ones in the correlation "
+             "matrix: they contain the given axes, are closed under the matrix, and lie inside every closed set containing the given axes; the search terminates")
+
+    def configs(self, tier):
+        out = []
+        mx = 4 if tier == 'thorough' else 3
+        for nw in range(1, mx + 1):
+            for npx in range(1, mx + 1):
+                for a in range(max(nw, npx)):
+                    # the three ways the callers ask: from a pixel axis, from a world axis, from both (dependent_axes)
+                    for seeds in ('pixel', 'world', 'both'):
+                        if seeds == 'pixel' and a >= npx or seeds == 'world' and a >= nw:
+                            continue
+                        out.append(dict(nw=nw, np=npx, axis=a, seeds=seeds))
+        return out
+
+    def inputs(self, cfg, P):
+        nw, npx, a = cfg['nw'], cfg['np'], cfg['axis']
+        rows = [[z3.Bool('m_%d_%d' % (i, j)) for j in range(npx)] for i in range(nw)]
+        pix = [a] if cfg['seeds'] in ('pixel', 'both') and a < npx else []
+        wor = [a] if cfg['seeds'] in ('world', 'both') and a < nw else []
+        Pc = [z3.Bool('anyclosed_pixel%d' % j) for j in range(npx)]
+        Wc = [z3.Bool('anyclosed_world%d' % i) for i in range(nw)]
+        st = St(rows=rows, pix=pix, wor=wor, Pc=Pc, Wc=Wc, nw=nw, np=npx)
+        return Inputs([bmat(rows)], {'pixel': PList(list(pix)), 'world': PList(list(wor))}, st=st)
+
+    def requires(self, cfg, st):
+        # (Pc, Wc): an arbitrary closed pair of sets containing the given axes
+        return [('arbitrary-closed-superset', z3.And(closed(st.rows, st.Pc, st.Wc), *([st.Pc[j] for j in st.pix] + [st.Wc[i] for i in st.wor])))]
+
+    def globals_(self, cfg, st):
+        def asarray(I, m, dtype=None):
+            return m
+
+        def zeros(I, n, dtype=None):
+            if not isinstance(n, int):
+                raise Unsupported("zeros(%r)" % (n,))
+            return bvec([False] * n)
+
+        def np_all(I, v):
+            return z3.And(*v.fields['items']) if v.fields['items'] else True
+        return {'numpy.asarray': Builtin('np.asarray', asarray), 'numpy.zeros': Builtin('np.zeros', zeros), 'numpy.all': Builtin('np.all', np_all), 'bool': PType('bool')}
+
+    def loops(self, cfg, st):
+        def inside(L):
+            Pd, Wd = L.pixel_dep.fields['items'], L.world_dep.fields['items']
+            return Pd, Wd
+
+        def inv(L):
+            Pd, Wd = inside(L)
+            return [('contains-the-given-axes', z3.And(*([Pd[j] for j in st.pix] + [Wd[i] for i in st.wor] + [z3.BoolVal(True)]))),
+                    ('inside-every-closed-superset', z3.And(*([z3.Implies(x, c) for x, c in zip(Pd, st.Pc)] + [z3.Implies(x, c) for x, c in zip(Wd, st.Wc)])))]
+
+        def unmarked(L):
+            Pd, Wd = inside(L)
+            return z3.Sum(*[z3.If(x, 0, 1) for x in Pd + Wd]) if len(Pd + Wd) > 1 else z3.If((Pd + Wd)[0], 0, 1)
+
+        def on_iter(what, L):
+            if what == 'havoc':
+                I = L.interp
+                L._env['pixel_dep'] = bvec([I.path.fresh('pixel_dep%d' % j, z3.BoolSort()) for j in range(st.np)])
+                L._env['world_dep'] = bvec([I.path.fresh('world_dep%d' % i, z3.BoolSort()) for i in range(st.nw)])
+        return {0: LoopSpec(inv, decreases=unmarked, on_iter=on_iter)}
+
+    def ensures(self, cfg, st, result):
+        ok = isinstance(result, tuple) and len(result) == 2 and all(isinstance(x, PObj) and x.cls == 'boolvec' for x in result)
+        if not ok:
+            return [('returns-pixel-and-world-marks', False)]
+        Pd, Wd = result[0].fields['items'], result[1].fields['items']
+        return [('one-mark-per-axis', len(Pd) == st.np and len(Wd) == st.nw),
+                ('contains-the-given-axes', z3.And(*([Pd[j] for j in st.pix] + [Wd[i] for i in st.wor] + [z3.BoolVal(True)]))),
+                ('closed:related-axes-are-marked-together', closed(st.rows, Pd, Wd)),
+                ('least:inside-every-closed-superset', z3.And(*([z3.Implies(x, c) for x, c in zip(Pd, st.Pc)] + [z3.Implies(x, c) for x, c in zip(Wd, st.Wc)])))]
+
+    def _native_args(self, cfg, val):
+        import numpy as np
+        nw, npx, a = cfg['nw'], cfg['np'], cfg['axis']
+        m = np.array([[bool(val.get('m_%d_%d' % (i, j), False)) for j in range(npx)] for i in range(nw)], dtype=bool).reshape(nw, npx)
+        pix = [a] if cfg['seeds'] in ('pixel', 'both') and a < npx else []
+        wor = [a] if cfg['seeds'] in ('world', 'both') and a < nw else []
+        return m, pix, wor
+
+    def native(self, cfg, val):
+        import numpy as np
+        from glue.core.coordinate_helpers import _connected_axes
+        m, pix, wor = self._native_args(cfg, val)
+        nw, npx = m.shape
+        pd, wd = _connected_axes(m, pixel=pix, world=wor)
+        # oracle: plain graph search
+        P, W = set(pix), set(wor)
+        while True:
+            W2 = W | {i for i in range(nw) for j in P if m[i, j]}
+            P2 = P | {j for j in range(npx) for i in W2 if m[i, j]}
+            if (P2, W2) == (P, W):
+                break
+            P, W = P2, W2
+        got = (set(int(x) for x in np.nonzero(pd)[0]), set(int(x) for x in np.nonzero(wd)[0]))
+        return (got == (P, W), "%s marks pixel axes %s and world axes %s; connected to the given axes are %s and %s"
+                % (self.native_call(cfg, val), sorted(got[0]), sorted(got[1]), sorted(P), sorted(W)))
+
+    def native_call(self, cfg, val):
+        m, pix, wor = self._native_args(cfg, val)
+        return "_connected_axes(%r, pixel=%r, world=%r)" % (m.astype(int).tolist(), pix, wor)
+
+
+CONTRACTS.append(ConnectedAxes())
